@@ -36,19 +36,18 @@ PATTERNS = ["*.qchemlog"]
 
 @document_load_one(
     "qchemlog",
+    ["mo", "extra"],
     [
         "atcoords",
         "atmasses",
         "atnums",
         "energy",
         "g_rot",
-        "mo",
         "lot",
         "obasis_name",
         "run_type",
-        "extra",
+        "athessian",
     ],
-    ["athessian"],
 )
 def load_one(lit: LineIterator) -> dict:
     """Do not edit this docstring. It will be overwritten."""
